@@ -27,6 +27,7 @@ From P2 Require Import Base.Prelude Sem.Num Sem.Syntax Sem.Ops Sem.Lib Sem.Ref S
      Sem.GenBuggy Sem.GenBuggyProofs Sem.Examples Generated.ValueCfg Run.C01Run.
 From P2 Require Import Lex.Token Syn.Parse Syn.Full Syn.Lower Sem.FromText.
 From P2 Require Lex.Tok Lex.TokProofs Syn.Render.
+From P2 Require Lib.Builtins Lib.SemLibAgreeProofs.
 
 (* ================= Part 1: the simulation theorems ================= *)
 
@@ -308,6 +309,42 @@ Example C01_from_text_value :
   eval value_methods 100 (combine ft_args [VInt 5; VInt 1]) ft_ast = Ok (VInt 19).
 Proof. split; vm_compute; reflexivity. Qed.
 
+(* ================= Part 4: the list stages of the pool against C07's models ================= *)
+
+(* The eager list stages of Sem/Lib.v - the pool that exec_sim and the optimizer proof cover - compute
+   what C07's IMPLEMENTATION models of the same Go loops (Lib/Builtins.v: lazy streams, validated
+   against value/list.go and the iterator package by C07's correspondence run) yield when the stream
+   is collected, for callbacks cb args := app f args and every way [app] of applying a closure.
+   compact and merge: C07 turns every non-bool answer of the callback into an error, Sem/Lib.v keeps
+   the opaque text of a caught error outside the modelled fragment; they agree whenever the callback
+   does not answer such a text. *)
+Theorem C01_lib_agrees_with_C07_models : forall (app : value -> list value -> res value) (f : value),
+  let collect := Lib.Builtins.collect in let of_list := Lib.Builtins.of_list in
+  (forall l i, collect (Lib.Builtins.s_number (fun a b => app f [a; b]) i (of_list l)) =
+               mapargs_app app f (number_args i l)) /\
+  (forall l, collect (Lib.Builtins.s_combine (fun a b => app f [a; b]) (of_list l)) =
+             mapargs_app app f (match l with [] => [] | x :: r => pair_args x r end)) /\
+  (forall l, collect (Lib.Builtins.s_combine3 (fun a b c => app f [a; b; c]) (of_list l)) =
+             mapargs_app app f (match l with x :: y :: r => triple_args x y r | _ => [] end)) /\
+  (forall n l, (1 <= n)%nat ->
+             collect (Lib.Builtins.s_combineN n (fun w => app f [w]) (of_list l)) = mapargs_app app f (windows n l)) /\
+  (forall three ini l,
+             collect (Lib.Builtins.s_iirmap (fun x => app ini [x]) (Lib.SemLibAgreeProofs.step_of app f three) (of_list l)) =
+             iir_app app three ini f l) /\
+  (forall l1 l2, collect (Lib.Builtins.s_cross (fun a b => app f [a; b]) (of_list l1) l2) =
+                 mapargs_app app f (cross_args l1 l2)) /\
+  (forall l, Lib.Builtins.t_minMax (fun x => app f [x]) (of_list l) =
+             match l with
+             | [] => Ok (Lib.minmax_map (VInt 0) (VInt 0) (VInt 0) (VInt 0) false)
+             | x :: r => bind (app f [x]) (fun k => minmax_app app f k k x x r)
+             end) /\
+  ((forall args t, app f args <> Ok (VErrText t)) ->
+   (forall l, collect (Lib.Builtins.s_compact (fun a b => app f [a; b]) (of_list l)) =
+              match l with [] => Ok [] | x :: r => bind (compact_app app f x r) (fun ys => Ok (x :: ys)) end) /\
+   (forall l1 l2, collect (Lib.Builtins.s_merge (fun a b => app f [a; b]) (of_list l1) l2) = merge_app app f l1 l2)).
+Proof. exact Lib.SemLibAgreeProofs.lib_agrees_lemma. Qed.
+
+
 Print Assumptions exec_sim.
 Print Assumptions C01_from_ast.
 Print Assumptions gen_check_implies_wf.
@@ -328,3 +365,4 @@ Print Assumptions C01_from_text.
 Print Assumptions C01_from_text_tokens.
 Print Assumptions C01_text_layout_irrelevant.
 Print Assumptions C01_value_configuration_ok.
+Print Assumptions C01_lib_agrees_with_C07_models.
